@@ -202,8 +202,8 @@ def branchesOf (cfg : Cfg) (s : St) (i : In) (r : R) : List String :=
         (if r.1.closed then ["drain:error"] else if r.1.wq.isEmpty then ["drain:emptied"]
          else if r.1.wq.length < s.wq.length then ["drain:some-buffers-then-stopped"] else ["drain:front-only"]) ++
         (if nW > 1 then ["drain:several-buffers-in-one-event"] else []) ++
-        (if ¬ r.1.closed ∧ r.1.wq.length = s.wq.length ∧ r.1.pending < s.pending then ["drain:short-write-of-front"] else []) ++
-        (if ¬ r.1.closed ∧ r.1.pending = s.pending ∧ ¬ s.wq.isEmpty then ["drain:refused"] else [])
+        (if ¬ r.1.closed ∧ r.1.wq.length = s.wq.length ∧ r.1.wireRev.length > s.wireRev.length then ["drain:short-write-of-front"] else []) ++
+        (if ¬ r.1.closed ∧ r.1.wireRev.length = s.wireRev.length ∧ ¬ s.wq.isEmpty then ["drain:refused"] else [])
        else if ev.out ∧ ¬ s.closed ∧ s.tls ≠ .handshake ∧ s.wq.isEmpty then ["drain:nothing-queued"] else [])
   base ++ closes
 
